@@ -38,6 +38,29 @@ fn main() {
             let idbase: u64 = arg(&args, "--idbase").and_then(|s| s.parse().ok()).unwrap_or(0);
             let mut lines = 0usize;
             let mut nscn = 0usize;
+            // --twin N: the first N behaviours carry a twin key (the same behaviours are recorded in several processes)
+            let twin_n: usize = arg(&args, "--twin").and_then(|s| s.parse().ok()).unwrap_or(0);
+            // --warm BS: before anything else this process uses every kind of object once with a cipher of that block
+            // size ("the first instance of a mode in this process has block size BS")
+            if let Some(wbs) = arg(&args, "--warm").and_then(|s| s.parse::<usize>().ok()) {
+                for (j, beh) in gens::warmup(&facs, wbs).into_iter().enumerate() {
+                    let sseed = seed.wrapping_mul(0x9E3779B97F4A7C15).wrapping_add(900_000 + j as u64);
+                    let mut it = scen::Interp::new(&facs, sseed);
+                    it.run(beh.as_array().unwrap());
+                    let id = idbase + 900_000 + j as u64;
+                    let recs = it.finish(id, &prop, "warmup", &beh);
+                    if recs.len() <= 1 {
+                        continue;
+                    }
+                    nscn += 1;
+                    writeln!(wb, "{}", serde_json::json!({"id": id, "prop": prop, "gen": "warmup",
+                        "sseed": sseed.to_string(), "cmds": beh})).unwrap();
+                    for r in recs {
+                        writeln!(w, "{}", r).unwrap();
+                        lines += 1;
+                    }
+                }
+            }
             for i in 0..count {
                 let sseed = seed.wrapping_mul(0x9E3779B97F4A7C15).wrapping_add(i as u64);
                 let mut rng = scen::Rng::new(sseed);
@@ -47,6 +70,9 @@ fn main() {
                 let _ = std::fs::write(format!("{out}.cur"), serde_json::json!({"id": idbase + i as u64, "prop": prop,
                     "sseed": sseed.to_string(), "cmds": beh}).to_string());
                 let mut it = scen::Interp::new(&facs, sseed);
+                if i < twin_n {
+                    it.twin = format!("t{i}");
+                }
                 it.run(beh.as_array().unwrap());
                 let gen_arg = arg(&args, "--gen");
                 let (pname, gname) = match prop.strip_suffix("probe") {
